@@ -17,7 +17,7 @@ from hypothesis import strategies as st
 
 from . import anneal_gen as ag
 from . import gen, ref
-from .common import Sub, Violation, lib
+from .common import Sub, Violation, forked, lib
 
 ID = "C12"
 RULE = ("repro: generated annealer calls (all functions / model kinds / schedules) with an integer seed, called twice. "
@@ -329,5 +329,7 @@ def subchecks(tier):
     return [
         Sub("repro", repro_strategy(), run_repro, quick=3000, thorough=60000),
         Sub("zerot", zerot_strategy(), run_zerot, quick=4000, thorough=100000),
-        Sub("dist", dist_strategy(), run_dist, quick=144, thorough=3600, shrink_quick=False),
+        # each dist case runs in its own forked child: the C wrapper leaks the result lists of every call
+        # (Py_BuildValue "OO" without releasing them; ~25 MB per 2*10^5 anneals), see DESIGN section 8
+        Sub("dist", dist_strategy(), forked(run_dist), quick=144, thorough=3600, shrink_quick=False),
     ]
